@@ -38,6 +38,11 @@ class _Poison:
     __slots__ = ()
 
     def _p(self, *a):
+        if a and hasattr(a[0], "shape") and getattr(a[0], "shape", ()) != ():
+            import numpy as _np
+            r = _np.empty(a[0].shape, dtype=object)
+            r.fill(self)
+            return r.view(type(a[0])) if isinstance(a[0], _np.ndarray) else r
         return self
     __add__ = __radd__ = __sub__ = __rsub__ = __mul__ = __rmul__ = _p
     __truediv__ = __rtruediv__ = __neg__ = __pos__ = __abs__ = __pow__ = _p
@@ -90,6 +95,7 @@ class Stats:
         k[1] += dt
 
 
+LIGHT_GROUPS = ("def", "cons")
 QUERY_HOOKS = []      # functions(list of formulas) -> list of extra formulas
 DUMP_DIR = os.environ.get("EVOVERIF_DUMP")
 _dump_n = [0]
@@ -107,7 +113,7 @@ class Ctx:
     cur = None
 
     def __init__(self, assumptions=(), plan=(), timeout_ms=20000, stats=None,
-                 seed=0, branch_timeout_ms=10000):
+                 seed=0, branch_timeout_ms=6000):
         self.assumptions = list(assumptions)
         self.plan = list(plan)
         self.trail = []          # [(formula, forced)] decisions taken, in order
@@ -147,9 +153,7 @@ class Ctx:
         returns ('sat'|'unsat'|'unknown', model|None)"""
         extra = list(extra)
         t0 = time.time()
-        s = z3.Solver()
-        s.set("timeout", int(timeout_ms or self.timeout_ms))
-        s.set("random_seed", self.seed)
+        tmo = int(timeout_ms or self.timeout_ms)
         ax = [(o, f) for o, f, g in self.axioms if groups is None or g in groups]
         if slice_on and not full:
             cons = sliced(self.assumptions + self.path_formulas(), ax, extra)
@@ -157,14 +161,24 @@ class Ctx:
             cons = self.assumptions + self.path_formulas() + [f for _, f in ax]
         for h in QUERY_HOOKS:
             cons = cons + h(cons + extra)
-        for c in cons:
-            s.add(c)
-        for e in extra:
-            s.add(e)
-        if DUMP_DIR:
-            _dump(s, kind)
-        r = s.check()
-        m = s.model() if r == z3.sat else None
+        # portfolio: the SMT core (SimpleSolver) notices propositional / linear conflicts at once where
+        # nlsat's CAD can time out on them; the default solver (nlsat tactic) decides the genuinely
+        # non-linear queries.  A fresh solver per query (incremental use makes NRA queries unknown).
+        r, m = z3.unknown, None
+        for mk_solver, budget in ((z3.SimpleSolver, 300), (z3.Solver, tmo), (z3.SimpleSolver, min(tmo, 8000))):
+            s = mk_solver()
+            s.set("timeout", int(budget))
+            s.set("random_seed", self.seed)
+            for c in cons:
+                s.add(c)
+            for e in extra:
+                s.add(e)
+            if DUMP_DIR:
+                _dump(s, kind)
+            r = s.check()
+            if r != z3.unknown:
+                m = s.model() if r == z3.sat else None
+                break
         self.stats.add(kind, time.time() - t0)
         if r == z3.unknown:
             self.stats.unknown += 1
@@ -181,14 +195,24 @@ class Ctx:
             self.trail.append((alts[k], forced))
             return k
         feas = []
+        heavy = any(g not in LIGHT_GROUPS for _, _, g in self.axioms)
         for k, a in enumerate(alts):
-            r, _ = self.solve([a], kind="branch", timeout_ms=self.branch_timeout_ms)
+            if len(alts) == 2 and k == 1 and not feas:
+                # the first of two exhaustive alternatives is infeasible: the path continues with the second
+                # (the prefix is feasible or over-approximated as such), no query needed
+                feas.append(k)
+                break
+            if heavy:
+                # abstraction first: without the heavy stub invariants (unsat there is unsat; a sat there
+                # only makes the explorer visit a possibly infeasible path, which is sound)
+                r, _ = self.solve([a], kind="branch", timeout_ms=self.branch_timeout_ms, groups=LIGHT_GROUPS)
+            else:
+                r, _ = self.solve([a], kind="branch", timeout_ms=self.branch_timeout_ms)
+            # "unknown" is treated as feasible: visiting a possibly infeasible path is sound (its
+            # obligations still have to be discharged), whereas dropping a feasible one would not be
             if r == "unknown":
-                # second chance with the complete constraint set
-                r, _ = self.solve([a], kind="branch", full=True, timeout_ms=self.branch_timeout_ms)
-            if r == "unknown":
-                raise Inconclusive("unknown at %s: %s" % (what, str(a)[:200]))
-            if r == "sat":
+                self.stats.by_kind.setdefault("branch-unknown-as-feasible", [0, 0.0])[0] += 1
+            if r != "unsat":
                 feas.append(k)
         if not feas:
             # path itself infeasible (slicing over-approximates feasibility)
@@ -587,7 +611,7 @@ class SymReal:
         if b is POISON:
             return POISON
         if isinstance(o, SymReal) and o.z.eq(self.z):
-            return 0
+            return Fraction(0)
         return SymReal(self.z - b)
 
     def __rsub__(self, o):
@@ -605,7 +629,7 @@ class SymReal:
             return SymReal(self._t, self._k * o)
         if is_conc(o):
             if o == 0:
-                return 0
+                return Fraction(0)
             if o == 1:
                 return self
             return SymReal(self._t, self._k * exact(o))
@@ -613,6 +637,11 @@ class SymReal:
             return POISON
         if isinstance(o, SymReal):
             k = self._k * o._k
+            if o._t.eq(self._t) and Ctx.cur is not None:
+                # sqrt(x) * sqrt(x) = x for results of the sqrt stub
+                rad = Ctx.cur.memo.get("radicand", {}).get(self._t.get_id())
+                if rad is not None:
+                    return SymReal(rad, k)
             return SymReal(self._t * o._t, k)
         return NotImplemented
     __rmul__ = __mul__
@@ -731,6 +760,7 @@ class SymReal:
 def sym_div(a, b):
     """a / b with b symbolic: forks on b == 0 (poison side) unless infeasible"""
     c = ctx()
+    sos = sos_terms(b.z) if isinstance(b, SymReal) else None
     b = reduced(b)
     if not isinstance(b, SymReal):
         return a / b
@@ -740,9 +770,23 @@ def sym_div(a, b):
         if fc == 0:
             return POISON
         return a * (1 / fc) if not isinstance(a, SymReal) else SymReal(a.z * q_of(1 / fc))
-    if c.branch(bz == 0):
+    # a sum of squares vanishes iff every square does: the equivalent conjunction of (mostly linear)
+    # equalities is a far better path condition than the non-linear "sum == 0"
+    zero = z3.And([e == 0 for e in sos]) if sos else (bz == 0)
+    if c.branch(zero):
         return POISON
-    return SymReal(toz(a) / bz)
+    if z3.is_const(bz) or (z3.is_app(bz) and bz.decl().kind() == z3.Z3_OP_MUL
+                           and all(z3.is_const(x) or z3.is_rational_value(x) for x in bz.children())):
+        return SymReal(toz(a) / bz)          # monomial denominator: Laurent cancellation in polyred
+    # general denominator: the reciprocal becomes an atom inv with inv * b = 1 (b != 0 on this path),
+    # so that everything downstream stays polynomial in atoms
+    memo = c.memo.setdefault("inv", {})
+    key = bz.get_id()
+    if key not in memo:
+        inv = c.fresh("inv")
+        c.axiom(inv, inv * bz == 1)
+        memo[key] = (SymReal(inv), bz)
+    return a * memo[key][0]
 
 
 _FC_MEMO = {}
@@ -755,6 +799,9 @@ def forced_const(zt, use_path=True):
     zs = z3.simplify(zt)
     if z3.is_rational_value(zs):
         return zval_to_fraction(zs)
+    from . import polyred
+    if polyred.active(c):
+        return None          # certified reduction (reduced()) subsumes the two-query concretisation
     tv = term_vars(zs)
     if len(tv) > 12 or any("!" in v for v in tv) or len(zs.sexpr()) > 4000:
         return None
@@ -832,6 +879,49 @@ def syntactically_nonneg(t, depth=0):
         r = ctx().memo.get("radicand", {})
         return t.get_id() in r or t.get_id() in ctx().memo.get("nonneg_atoms", set())
     return False
+
+
+def sos_terms(t):
+    """if t is syntactically a positively weighted sum of squares, the list of squared terms"""
+    if z3.is_rational_value(t):
+        return [] if zval_to_fraction(t) == 0 else None
+    if not z3.is_app(t):
+        return None
+    k = t.decl().kind()
+    ch = t.children()
+    if k == z3.Z3_OP_ADD:
+        out = []
+        st = list(ch)
+        while st:
+            c = st.pop()
+            if z3.is_app(c) and c.decl().kind() == z3.Z3_OP_ADD:
+                st.extend(c.children())
+                continue
+            r = sos_terms(c)
+            if r is None:
+                return None
+            out += r
+        return out
+    if k == z3.Z3_OP_MUL:
+        flat, st = [], list(ch)
+        while st:
+            c = st.pop()
+            if z3.is_app(c) and c.decl().kind() == z3.Z3_OP_MUL:
+                st.extend(c.children())
+            else:
+                flat.append(c)
+        nums = [c for c in flat if z3.is_rational_value(c)]
+        if any(zval_to_fraction(c) <= 0 for c in nums):
+            return None
+        rest = [c for c in flat if not z3.is_rational_value(c)]
+        if len(rest) == 2 and rest[0].eq(rest[1]):
+            return [rest[0]]
+        if len(rest) == 1:
+            return sos_terms(rest[0])
+        return None
+    if k == z3.Z3_OP_POWER and z3.is_rational_value(ch[1]) and zval_to_fraction(ch[1]) == 2:
+        return [ch[0]]
+    return None
 
 
 def sym_sqrt(x):
